@@ -258,3 +258,84 @@ Theorem C05_glue_rfa_exp_fixed : forall pw x y n alpha beta a, (2 <= n)%nat -> (
 Proof. exact glue_rfa_exp_fixed. Qed.
 Print Assumptions C05_glue_rfa_exp_fixed.
 Close Scope string_scope.
+
+(* ==================================================================================================== *)
+(** CONSTRUCTORS regenerated by tools/translate_ext_ctors.py (Gen/CtorsGlue.v); leaves and the meaning of `super().__init__`:
+    Model/GlueLeaves_Ctors.v.  [rfa_construct cls actuals] = cls(actuals): (the object's attributes "self.attr" |-> value, most recently
+    assigned first; how the constructor ended);  [new_then_rfa pw gpow sf cls actuals] = cls(actuals).rfa();
+    [st_call loadtxt m actuals] = Weaver.m(actuals) for a static constructor m ([loadtxt]: what np.loadtxt reads). *)
+From Coq Require Import Lia Bool.
+From TW Require Import Model.GlueLeaves_Ctors Gen.CtorsGlue Gen.RfaGlue Proofs.GlueCtorsRfaProofs.
+Open Scope Qc_scope.
+Open Scope string_scope.
+
+(** LinearFixedRFA(x, y, n, alpha, a), n >= 2: the object holds exactly the model's window parameters *)
+Theorem C05_glue_linear_fixed_init : forall vx vy lx ly n alpha a,
+  to_array vx = Ok (VArr lx) -> to_array vy = Ok (VArr ly) -> (2 <= n)%Z ->
+  rfa_construct "LinearFixedRFA" [("x", vx); ("y", vy); ("n", VInt n); ("alpha", VNum alpha); ("a", optQ a)] =
+  (let A := window_a (Z.to_nat n) alpha a in
+   [("self.a_r", VInt (half_window A)); ("self.a_l", VInt (half_window A)); ("self.a", VInt A);
+    ("self.n", VInt n); ("self.y", VArr ly); ("self.x", VArr lx)], ONormal).
+Proof. exact glue_linear_fixed_init. Qed.
+Print Assumptions C05_glue_linear_fixed_init.
+
+Theorem C05_glue_exp_fixed_init : forall vx vy lx ly n alpha beta a vexp,
+  to_array vx = Ok (VArr lx) -> to_array vy = Ok (VArr ly) -> (2 <= n)%Z ->
+  rfa_construct "ExpFixedRFA" [("x", vx); ("y", vy); ("n", VInt n); ("alpha", VNum alpha); ("beta", VNum beta); ("a", optQ a); ("exp", vexp)] =
+  (let A := window_a (Z.to_nat n) alpha a in
+   [("self.exp", vexp); ("self.b", VInt (lin_part beta (half_window A)));
+    ("self.a_r", VInt (half_window A)); ("self.a_l", VInt (half_window A)); ("self.a", VInt A);
+    ("self.n", VInt n); ("self.y", VArr ly); ("self.x", VArr lx)], ONormal).
+Proof. exact glue_exp_fixed_init. Qed.
+Print Assumptions C05_glue_exp_fixed_init.
+
+(** omitted arguments are the defaults of the signatures: alpha = 1.0, beta = 0.5, a = None, adaptive_smooth = 1.0, exp = 2.0 *)
+Theorem C05_glue_window_init_defaults : forall vx vy n,
+  rfa_construct "LinearFixedRFA" [("x", vx); ("y", vy); ("n", VInt n)] =
+    rfa_construct "LinearFixedRFA" [("x", vx); ("y", vy); ("n", VInt n); ("alpha", VNum 1); ("a", optQ None)] /\
+  rfa_construct "ExpFixedRFA" [("x", vx); ("y", vy); ("n", VInt n)] =
+    rfa_construct "ExpFixedRFA" [("x", vx); ("y", vy); ("n", VInt n); ("alpha", VNum 1); ("beta", VNum (qf 1 2)); ("a", optQ None); ("exp", VNum (qz 2))] /\
+  rfa_construct "LinearAdaptiveRFA" [("x", vx); ("y", vy); ("n", VInt n)] =
+    rfa_construct "LinearAdaptiveRFA" [("x", vx); ("y", vy); ("n", VInt n); ("alpha", VNum 1); ("a", optQ None); ("adaptive_smooth", VNum 1)] /\
+  rfa_construct "ExpAdaptiveRFA" [("x", vx); ("y", vy); ("n", VInt n)] =
+    rfa_construct "ExpAdaptiveRFA" [("x", vx); ("y", vy); ("n", VInt n); ("alpha", VNum 1); ("beta", VNum (qf 1 2)); ("a", optQ None);
+                                    ("adaptive_smooth", VNum 1); ("exp", VNum (qz 2))].
+Proof. exact glue_window_init_defaults. Qed.
+Print Assumptions C05_glue_window_init_defaults.
+
+(** integer-typed arguments (alpha = 1, a = 6, beta = 1) give the same object as the corresponding floats *)
+Theorem C05_glue_window_init_int_typed : forall vx vy lx ly n za oa,
+  to_array vx = Ok (VArr lx) -> to_array vy = Ok (VArr ly) -> (2 <= n)%Z ->
+  rfa_construct "LinearFixedRFA" [("x", vx); ("y", vy); ("n", VInt n); ("alpha", VInt za); ("a", optZ oa)] =
+    rfa_construct "LinearFixedRFA" [("x", vx); ("y", vy); ("n", VInt n); ("alpha", VNum (Qc_of_Z za)); ("a", optQ (option_map Qc_of_Z oa))] /\
+  (forall zb vexp,
+   rfa_construct "ExpFixedRFA" [("x", vx); ("y", vy); ("n", VInt n); ("alpha", VInt za); ("beta", VInt zb); ("a", optZ oa); ("exp", vexp)] =
+    rfa_construct "ExpFixedRFA" [("x", vx); ("y", vy); ("n", VInt n); ("alpha", VNum (Qc_of_Z za)); ("beta", VNum (Qc_of_Z zb));
+                                 ("a", optQ (option_map Qc_of_Z oa)); ("exp", vexp)]) /\
+  (forall vsmooth,
+   rfa_construct "LinearAdaptiveRFA" [("x", vx); ("y", vy); ("n", VInt n); ("alpha", VInt za); ("a", optZ oa); ("adaptive_smooth", vsmooth)] =
+    rfa_construct "LinearAdaptiveRFA" [("x", vx); ("y", vy); ("n", VInt n); ("alpha", VNum (Qc_of_Z za)); ("a", optQ (option_map Qc_of_Z oa));
+                                       ("adaptive_smooth", vsmooth)]) /\
+  (forall vbeta vsmooth vexp,
+   rfa_construct "ExpAdaptiveRFA" [("x", vx); ("y", vy); ("n", VInt n); ("alpha", VInt za); ("beta", vbeta); ("a", optZ oa);
+                                   ("adaptive_smooth", vsmooth); ("exp", vexp)] =
+    rfa_construct "ExpAdaptiveRFA" [("x", vx); ("y", vy); ("n", VInt n); ("alpha", VNum (Qc_of_Z za)); ("beta", vbeta);
+                                    ("a", optQ (option_map Qc_of_Z oa)); ("adaptive_smooth", vsmooth); ("exp", vexp)]).
+Proof. exact glue_window_init_int_typed. Qed.
+Print Assumptions C05_glue_window_init_int_typed.
+
+(** LinearFixedRFA(x, y, n, alpha, a).rfa() is the model's rfa, for EVERY n (ValueError below 2) *)
+Theorem C05_glue_linear_fixed_ctor_then_rfa : forall pw gpow sf x y n alpha a,
+  outcome_arr_pair (new_then_rfa pw gpow sf "LinearFixedRFA"
+     [("x", VArr x); ("y", VArr y); ("n", VInt n); ("alpha", VNum alpha); ("a", optQ a)])
+  = rfa pw gpow (LinearFixed alpha a) x y n.
+Proof. exact glue_linear_fixed_ctor_then_rfa. Qed.
+Print Assumptions C05_glue_linear_fixed_ctor_then_rfa.
+
+(** exp is a caller-supplied value whose meaning (t |-> t ** exp) is [pw] *)
+Theorem C05_glue_exp_fixed_ctor_then_rfa : forall pw gpow sf x y n alpha beta a,
+  outcome_arr_pair (new_then_rfa pw gpow sf "ExpFixedRFA"
+     [("x", VArr x); ("y", VArr y); ("n", VInt n); ("alpha", VNum alpha); ("beta", VNum beta); ("a", optQ a); ("exp", VOpaque "exp")])
+  = rfa pw gpow (ExpFixed alpha beta a) x y n.
+Proof. exact glue_exp_fixed_ctor_then_rfa. Qed.
+Print Assumptions C05_glue_exp_fixed_ctor_then_rfa.
